@@ -223,9 +223,10 @@ def impl(case):
             return {"err": "re.error"}
         m = rx.match(case["row"])
         if m is None:
-            return {"match": None, "named": []}
+            return {"match": None, "named": [], "source": rx.pattern}
         named = set(m.groupdict().values()) if m.groupdict() else set()
-        return {"match": [g for g in m.groups()], "named": sorted(x for x in named if x is not None)}
+        return {"match": [g for g in m.groups()], "named": sorted(x for x in named if x is not None),
+                "source": rx.pattern}
     if k == "reverse":
         tmpl = rbp._make_reverse(case["pattern"], case["prefix"])
         try:
@@ -258,7 +259,7 @@ def model(case, resp):
         r = resp[0]
         if not r.get("grammar"):
             return {"skip": True}
-        return {"match": r["match"], "named": []}
+        return {"match": r["match"], "named": [], "source": r["source"]}
     if k == "reverse":
         if not resp[0].get("grammar"):
             return {"skip": True}
